@@ -555,7 +555,22 @@ namespace bloch::runtime {
         bool hasClasses = !program.classes.empty();
         if (hasClasses) {
             buildClassTable(program);
-            for (auto& kv : m_classTable) initStaticFields(kv.second.get());
+            // Static initialisers can have visible effects, so run them in a fixed order (by
+            // class name, bases first) rather than in hash-table order. Work on a snapshot:
+            // an initialiser may instantiate a generic class and grow the table.
+            std::vector<RuntimeClass*> staticOrder;
+            for (auto& kv : m_classTable) staticOrder.push_back(kv.second.get());
+            std::sort(
+                staticOrder.begin(), staticOrder.end(),
+                [](const RuntimeClass* a, const RuntimeClass* b) { return a->name < b->name; });
+            std::unordered_set<RuntimeClass*> staticsDone;
+            std::function<void(RuntimeClass*)> initStatics = [&](RuntimeClass* cls) {
+                if (!cls || !staticsDone.insert(cls).second)
+                    return;
+                initStatics(cls->base);
+                initStaticFields(cls);
+            };
+            for (RuntimeClass* cls : staticOrder) initStatics(cls);
             ensureGcThread();
         }
         auto it = m_functions.find("main");
